@@ -266,6 +266,20 @@ PROPS = {
         phases=[P(kind="fuzz", bin="c17_pending", runs_quick=100000, runs_thorough=20000000, workers_quick=8, workers_thorough=16, max_len=512, rss=4000, timeout=60)],
         floor_quick=800, floor_thorough=50000,
     ),
+    "C19": P(
+        title="auto-started services get held messages once, in order, or callers get errors",
+        level="exploration",
+        technique="stateful model-based testing with generated histories (enumeration front end over splitmix-derived cases) of an in-process bus that really spawns a scripted service process, compared with a per-name model of the pending activation; and differential testing of the activation helper's validation chain against an independent reading of the service file and /bin/sh's word splitting",
+        level_text=("Exploration. Bus part (c19_activation): 1-3 activatable names whose Exec is the scripted service tools/vp_service.cc with one of 9 generated behaviours (takes the name at once / when the harness releases it / never / takes another name / exits 0 / exits 3 / connects then exits / is killed / executable missing); "
+                    "2-3 senders issue auto-starting calls, StartServiceByName and NO_AUTO_START calls to the same and different names before, while and after the service comes up; virtual time passes in thirds of and beyond service_start_timeout. "
+                    "Checked: the process-start log shows exactly one start per activation; joined requests spawn nothing; once the name is taken every StartServiceByName waiter gets SUCCESS and the service's receive log equals the held calls in arrival order followed by later direct calls, each answered to its caller with its token; "
+                    "on exec failure, non-zero exit, kill or timeout every waiting request gets exactly one error from the bus and no success; NO_AUTO_START calls are refused at once and start nothing; no reply is left unexplained; nothing leaks at shutdown. "
+                    "Helper part (c19_helper): see DESIGN.md."),
+        level_note="The service is a real child process, so each case costs ~0.2 s and waits use bounded real time (10 s) besides the virtual clock; exit status 0 without taking the name is modelled as 'pending until the timeout' as bus/activation.c documents. Policy-denied held messages, systemd activation and <servicehelper> (setuid helper launched by the bus) are not driven.",
+        rule=("case = history decoded from generated bytes. Non-trivial = >=2 requests were waiting on one activation when it succeeded or failed; distinct = FNV-1a of the normalised log."),
+        phases=[P(kind="enum", bin="c19_activation_enum", nopool_odd=True, quick=["1400", "96"], thorough=["200000", "96"], shards_quick=14, shards_thorough=16, env={"ASAN_OPTIONS": "abort_on_error=0:detect_leaks=0:symbolize=1:allocator_may_return_null=1:detect_odr_violation=0:handle_abort=1"})],
+        floor_quick=150, floor_thorough=10000,
+    ),
     "C20": P(
         title="object-path handlers: exact path, then nearest fallback",
         level="exploration",
